@@ -90,6 +90,10 @@ pub struct ListenerCtl {
     pub factory_delay_ms: VecDeque<u64>,
     /// new_service fails for these creation ordinals (0-based)
     pub factory_fail: Vec<u64>,
+    /// the next creation that happens on one of these threads fails (one-shot per entry): an in-place service restart
+    /// runs on the worker's own thread, a replacement worker is built on a new one, so this addresses the former
+    /// whatever order the two happen in
+    pub factory_fail_on_thread: Vec<u64>,
     pub created: u64,
     /// keep the worker task's waker on every readiness poll (fault scenarios wake the worker at will)
     pub keep_wakers: bool,
@@ -230,7 +234,15 @@ where
                         ..Default::default()
                     },
                 );
-                (g.factory_delay_ms.pop_front().unwrap_or(0), g.factory_fail.contains(&ord))
+                let th = thread_hash();
+                let on_thread = match g.factory_fail_on_thread.iter().position(|t| *t == th) {
+                    Some(k) => {
+                        g.factory_fail_on_thread.remove(k);
+                        true
+                    }
+                    None => false,
+                };
+                (g.factory_delay_ms.pop_front().unwrap_or(0), g.factory_fail.contains(&ord) || on_thread)
             };
             uev("factory_new", ctl.listener, instance, fail as u64);
             if delay > 0 {
